@@ -105,6 +105,14 @@ def judge(rec, rnd, tmp, k):
             b['rf'].rules.insert(pos, R.Rule('Shared small', 'contains("%s") and amount < %s' % (w, rnd.choice(['20', '100', '1000'])), 'Transport', 'Fuel',
                                              merchant='Shared Merchant'))
         rec.count('budgets_with_merchant_fed_by_several_rules')
+    if b['rules_kind'] == 'rules' and rnd.random() < .3:
+        # merchants whose names differ only in letter case are different merchants (explain looks names up exactly first)
+        w = rnd.choice(['S0', 'S1', 'NETFLIX', 'COSTCO', 'UBER'])
+        pos = rnd.randint(0, len(b['rf'].rules))
+        b['rf'].rules.insert(pos, R.Rule('Case plain', 'contains("%s")' % w, 'Shopping', 'Lower', merchant='Acme store'))
+        b['rf'].rules.insert(pos, R.Rule('Case small', 'contains("%s") and amount < %s' % (w, rnd.choice(['20', '100', '1000'])), 'Transport', 'Upper',
+                                         merchant='ACME STORE'))
+        rec.count('budgets_with_case_twin_merchants')
     root = os.path.join(tmp, 'b%d' % k)
     os.makedirs(root)
     cfg = B.write_budget(b, root)
@@ -121,7 +129,7 @@ def judge(rec, rnd, tmp, k):
         rec.interesting(core.digest(case))
     # ---- explain per merchant
     picked = rnd.sample(U['merchants'], min(4, len(U['merchants'])))
-    picked += [m for m in U['merchants'] if m['name'] == 'Shared Merchant' and m not in picked]
+    picked += [m for m in U['merchants'] if m['name'] in ('Shared Merchant', 'Acme store', 'ACME STORE') and m not in picked]
     for m in picked:
         pe = B.tally(root, 'explain', m['name'], cfg, '--format', 'json')
         rec.count('cli_runs')
